@@ -92,15 +92,16 @@ def step (line : String) : String :=
   -- ------------------------------------------------------------------ date
   | ["date.format", y, m, d, basic, pre] =>
     (do let y ← y.toInt?; let m ← m.toInt?; let d ← d.toInt?; let p ← unhex pre
-        pure (hex (Date.format p (Date.new y m d) (basic == "1")))).getD bad
+        let fl ← basic.toNat?
+        pure (hex (Date.format p (Date.new y m d) (Date.isBasic fl)))).getD bad
   | ["date.paths", y, m, d] =>
     (do let y ← y.toInt?; let m ← m.toInt?; let d ← d.toInt?
         let x := Date.new y m d
-        let f := fun (verb : Nat) => hex (Date.format [] x (Date.basicByVerb verb))
-        pure s!"{hex (Date.format [] x false)} {hex (Date.format [] x false)} {f 115} {f 101} {f 98} {f 118}").getD bad
+        let f := fun (verb : Nat) => hex (Date.formatVerb x verb)
+        pure s!"{hex (Date.marshalText x)} {hex (Date.toString x)} {f 115} {f 101} {f 98} {f 118}").getD bad
   | ["date.parse", maxlen, rule, h] =>
     (do let ml ← maxlen.toNat?; let r ← rule.toNat?; let s ← unhex h
-        pure (outcomeStr dateStr (Date.parse ml (r % 2 == 1) s))).getD bad
+        pure (outcomeStr dateStr (Date.parse ml (Date.ruleDisableBasic r) s))).getD bad
   | ["date.unbin", h] =>
     (do let s ← unhex h; pure (outcomeStr dateStr (Date.unmarshalBinary s))).getD bad
   | ["date.bin", y, m, d] =>
@@ -211,12 +212,12 @@ def step (line : String) : String :=
         pure (" ".intercalate (tokensF (s.length + 2) (GoJson.Dec.init s)))).getD bad
   -- ------------------------------------------------------------------ uu
   | ["uu.format", hi, lo, urn, pre] =>
-    (do let hi ← hi.toNat?; let lo ← lo.toNat?; let p ← unhex pre
-        pure (hex (UU.format p ⟨BitVec.ofNat 64 hi, BitVec.ofNat 64 lo⟩ (urn == "1")))).getD bad
+    (do let hi ← hi.toNat?; let lo ← lo.toNat?; let p ← unhex pre; let fl ← urn.toNat?
+        pure (hex (UU.format p ⟨BitVec.ofNat 64 hi, BitVec.ofNat 64 lo⟩ (UU.isURN fl)))).getD bad
   | ["uu.parse", maxlen, rule, h] =>
     (do let ml ← maxlen.toNat?; let r ← rule.toNat?; let s ← unhex h
         pure (outcomeStr (fun (i : UU.ID) => s!"{i.hi.toNat} {i.lo.toNat}")
-          (UU.parse ml (r % 2 == 1) (r / 2 % 2 == 1) s))).getD bad
+          (UU.parse ml (UU.ruleDisableURN r) (UU.ruleDisableUpper r) s))).getD bad
   | ["uu.fields", hi, lo] =>
     (do let hi ← hi.toNat?; let lo ← lo.toNat?
         let i : UU.ID := ⟨BitVec.ofNat 64 hi, BitVec.ofNat 64 lo⟩
